@@ -282,14 +282,14 @@ func c05conv(c *core.Ctx, r *core.Reporter) {
 }
 
 var ovfExceptions = map[string]string{
-	"slip.(BitVector).AsFixnum|<<":           "documented bit reinterpretation: the first 64 bits of the vector form the fixnum and the boolean result reports truncation",
-	"pkg/cl.(Gensym).Call|+":                 "the gensym counter, not a number computed from the program's data; 2^63 generated symbols are out of reach",
-	"pkg/cl.(IntegerLength).Call|+":          "ta + 1 is taken only for ta < 0, so it cannot exceed 0",
-	"pkg/cl.(IntegerLength).Call|neg":        "-(ta + 1) with ta < 0 lies in 0 .. 2^63-1",
-	"pkg/cl.(Logcount).Call|+":               "a count of at most 64 one-bits",
-	"pkg/cl.(Logcount).Call|+#2":             "a count of at most 64 one-bits",
-	"pkg/cl.(Logcount).Call|+#3":             "a count of at most 64 one-bits",
-	"pkg/cl.(Logcount).Call|-":               "64 minus a count of at most 64",
+	"slip.(BitVector).AsFixnum|<<":    "documented bit reinterpretation: the first 64 bits of the vector form the fixnum and the boolean result reports truncation",
+	"pkg/cl.(Gensym).Call|+":          "the gensym counter, not a number computed from the program's data; 2^63 generated symbols are out of reach",
+	"pkg/cl.(IntegerLength).Call|+":   "ta + 1 is taken only for ta < 0, so it cannot exceed 0",
+	"pkg/cl.(IntegerLength).Call|neg": "-(ta + 1) with ta < 0 lies in 0 .. 2^63-1",
+	"pkg/cl.(Logcount).Call|+":        "a count of at most 64 one-bits",
+	"pkg/cl.(Logcount).Call|+#2":      "a count of at most 64 one-bits",
+	"pkg/cl.(Logcount).Call|+#3":      "a count of at most 64 one-bits",
+	"pkg/cl.(Logcount).Call|-":        "64 minus a count of at most 64",
 }
 
 // ovfFuncExceptions: the rounding divisions compute q = n/d, r = n - q*d and then move q by one and r by d
